@@ -46,7 +46,7 @@ DecsQ == << Dc(0, 0), Dc(0, 1), Dc(1, 0), Dc(-1, 0), Dc(10, 1), Dc(150, 2), Dc(2
 DecsX == << Dc(10, 0), VDec(Z(1, MSub(DecMaxM, <<1>>)), 0), Dc(725, 2), Dc(-5, 1), Dc(-15, 1), Dc(7, 0),
             VDec(Z(1, DecMaxM), 28), Dc(250000001, 8), Dc(2, 0), Dc(-35, 1), Dc(45, 1) >>
 
-StrsQ == << St(""), St("a"), St("A"), St("abc"), St(" a "), St("1"), St("i1"), St("1.5"), St("true"),
+StrsQ == << St(""), St("a"), St("A"), St("abc"), St(" a "), St(" "), VStr(<<9, 10, 8195>>), St("1"), St("i1"), St("1.5"), St("true"),
             St("NaN"), St("-7"), St("2015-07-30T03:26:13Z"), St("2015-02-30T00:00:00Z"), St("2015-07-30T03:26:13"),
             VStr(<<233, 223, 65>>), VStr(<<12288, 120, 160, 9>>) >>
 StrsX == << St("1e5"), St("+5"), St("b"), St("ab"), St("bc"), St("1970-01-01T00:00:00Z"),
